@@ -1028,6 +1028,13 @@ func FunctionMap() map[string]physical.FunctionDetails {
 					OutputType:    octosql.String,
 					Strict:        false,
 					Function: func(values []octosql.Value) (octosql.Value, error) {
+						switch values[0].TypeID {
+						case octosql.TypeIDString:
+							// Value.String() is the quoted rendering used for explaining, a string converts to itself.
+							return octosql.NewString(values[0].Str), nil
+						case octosql.TypeIDTime:
+							return octosql.NewString(values[0].Time.Format(time.RFC3339Nano)), nil
+						}
 						return octosql.NewString(values[0].String()), nil
 					},
 				},
